@@ -9,6 +9,7 @@ import (
 	"path/filepath"
 	"strings"
 	"sync"
+	"sync/atomic"
 	"time"
 
 	"reduction.dev/reduction-protocol/jobconfigpb"
@@ -152,6 +153,7 @@ type Options struct {
 	Log       io.Writer  // slog output of the code under test (default: discarded)
 	Timeout   time.Duration // boot / wait timeout (default 10s)
 	SavepointURI string     // jobs.NewParams.SavepointURI of every generation booted by this cluster ("" = none)
+	WorkerProcesses bool    // "op<i>" + "sr<i>" are one process (workers.Worker): when one half ends by itself the other is stopped
 }
 
 // Cluster is an in-process reduction cluster: see the package comment.
@@ -176,6 +178,12 @@ type generation struct {
 	storeWG sync.WaitGroup // job-storage writes / removals in progress (retire waits for them: a restart never sees a half-written snapshot)
 	pubs, expectRetain, gotRetain int // publications / retention calls expected and finished (see WaitRetention)
 	maxPub  uint64 // highest checkpoint id written by (or loaded into) this generation's job
+	gone     map[string]bool // nodes whose Start has returned (killed, stopped or died of an error)
+	reasm    int             // survivors restarts so far
+	stamp    int             // see assemblyNo
+	replaced map[string]bool // killed nodes that have been replaced
+	deploysSeen int          // Deploy calls the job has made (operators and runners)
+	jobEpoch int // incarnation of the job inside this generation (survivors restart with a killed job: +1)
 	deployFailed bool // an operator's HandleDeploy returned an error or panicked: the job will never reach "running"
 	booting bool // until Boot returns: watermark events are not delivered (an operator still loading its DKV rejects them and the runner dies)
 	job     *jobs.Job
@@ -191,6 +199,8 @@ type generation struct {
 type opNode struct {
 	label string
 	id    string
+	pos   atomic.Int32 // position (0-based) among the operators of the newest deploy request, -1 before the first
+	of    atomic.Int32 // number of operators in that request
 	op    *operator.Operator
 	clock *Clock
 	timer *Timer
@@ -204,8 +214,30 @@ type srNode struct {
 	id     string
 	sr     *sourcerunner.SourceRunner
 	clock  *Clock
-	reader *reader
+	mu      sync.Mutex
+	reader  *reader // the reader of the newest deployment (cur())
+	deploys int
 	exit   chan error
+}
+
+// cur returns the reader of the runner's newest deployment.
+func (n *srNode) cur() *reader {
+	n.mu.Lock()
+	defer n.mu.Unlock()
+	return n.reader
+}
+
+// readerForDeploy is the runner's SourceReaderFactory: the first deployment gets the reader created with the
+// node, every later one (redeploy in place of a surviving runner) a fresh one; the old reader object keeps
+// working for whoever still polls it, like a real connector's would.
+func (n *srNode) readerForDeploy(g *generation) *reader {
+	n.mu.Lock()
+	defer n.mu.Unlock()
+	n.deploys++
+	if n.deploys > 1 {
+		n.reader = newReader(g, n.label)
+	}
+	return n.reader
 }
 
 var setLogOnce sync.Once
@@ -342,6 +374,39 @@ func (g *generation) beginStoreOp() bool {
 	return true
 }
 
+// theJob returns the generation's current jobs.Job (a survivors restart may replace a killed job).
+func (g *generation) theJob() *jobs.Job {
+	g.mu.Lock()
+	defer g.mu.Unlock()
+	return g.job
+}
+
+// assemblyNo is a stamp that changes when a survivors restart begins and again when it has finished: a call made
+// before or during a restart carries another stamp than the assembly that runs afterwards.
+func (g *generation) assemblyNo() int {
+	g.mu.Lock()
+	defer g.mu.Unlock()
+	return g.stamp
+}
+
+func (g *generation) bumpStamp() {
+	g.mu.Lock()
+	g.stamp++
+	g.mu.Unlock()
+}
+
+func (g *generation) epochOfJob() int {
+	g.mu.Lock()
+	defer g.mu.Unlock()
+	return g.jobEpoch
+}
+
+func (g *generation) clockOfJob() *Clock {
+	g.mu.Lock()
+	defer g.mu.Unlock()
+	return g.jobClock
+}
+
 func (g *generation) isDead(label string) bool {
 	g.mu.Lock()
 	defer g.mu.Unlock()
@@ -405,6 +470,7 @@ func (g *generation) call(c *Call, do func() error) (err error) {
 	c.Gen = g.n
 	c.done = make(chan struct{})
 	c.entered = make(chan struct{})
+	epoch := g.epochOfJob()
 	defer func() {
 		c.Err = err
 		close(c.done)
@@ -433,6 +499,10 @@ func (g *generation) call(c *Call, do func() error) (err error) {
 	}
 	if g.isDead(c.To) {
 		return fmt.Errorf("cluster: %s is unavailable (killed)", c.To)
+	}
+	if (c.To == "job" || c.From == "job") && g.epochOfJob() != epoch {
+		// the call was addressed to (made by) the job process that has been replaced since
+		return fmt.Errorf("cluster: the job this call belongs to is gone (killed)")
 	}
 	close(c.entered)
 	for i := 0; i <= c.Dup; i++ {
@@ -507,8 +577,36 @@ func (c *Cluster) Boot() (restored uint64, err error) {
 		g.sched.FreeRun()
 	}
 
-	g.store = newStore(g, filepath.Join(c.opt.Dir, "job"))
-	g.jobClock = NewClock()
+	if err := g.newJob(); err != nil {
+		g.retire()
+		return 0, err
+	}
+	restored = g.store.loadedID()
+	c.observe(Obs{Kind: "boot", Gen: g.n, Ckpt: restored})
+
+	for i := 0; i < c.opt.Workers; i++ {
+		g.addOperator(fmt.Sprintf("g%02d-op%d", g.n, i))
+	}
+	for i := 0; i < c.opt.Workers; i++ {
+		g.addRunner()
+	}
+	for _, n := range g.ops {
+		g.startOperator(n)
+	}
+	for _, n := range g.srs {
+		g.startRunner(n)
+	}
+	return restored, g.awaitRunning(g.srs, 0)
+}
+
+// newJob creates this generation's jobs.Job (and its storage adapter) over the cluster's job directory.
+func (g *generation) newJob() error {
+	c := g.c
+	store := newStore(g, filepath.Join(c.opt.Dir, "job"))
+	clock := NewClock()
+	g.mu.Lock()
+	g.store, g.jobClock = store, clock
+	g.mu.Unlock()
 	cfg := &config.Config{
 		WorkerCount:            c.opt.Workers,
 		KeyGroupCount:          c.opt.KeyGroups,
@@ -521,8 +619,8 @@ func (c *Cluster) Boot() (restored uint64, err error) {
 		job, e = jobs.New(&jobs.NewParams{
 			JobConfig: cfg,
 			SavepointURI: c.opt.SavepointURI,
-			Clock:     g.jobClock,
-			Store:     g.store,
+			Clock:     clock,
+			Store:     store,
 			ErrChan:   g.errChan,
 			OperatorFactory: func(senderID string, node *jobpb.NodeIdentity) proto.Operator {
 				return &opClient{g: g, from: g.label(senderID), senderID: senderID, node: node}
@@ -533,80 +631,127 @@ func (c *Cluster) Boot() (restored uint64, err error) {
 		})
 		return e
 	}); err != nil {
-		g.retire()
-		return 0, err
+		return err
 	}
+	g.mu.Lock()
 	g.job = job
-	restored = g.store.loadedID()
-	c.observe(Obs{Kind: "boot", Gen: g.n, Ckpt: restored})
+	g.mu.Unlock()
+	return nil
+}
 
-	for i := 0; i < c.opt.Workers; i++ {
-		on := &opNode{label: fmt.Sprintf("op%d", i), id: fmt.Sprintf("g%02d-op%d", g.n, i), clock: NewClock(), exit: make(chan error, 1)}
-		on.h = &handler{g: g, label: on.label}
-		on.sink = &sink{g: g, label: on.label}
-		ob := batching.EventBatcherParams{MaxSize: c.opt.OpBatch}
-		if c.opt.OpBatch > 1 {
-			if c.opt.OpDelay > 0 {
-				ob.MaxDelay = c.opt.OpDelay
-			} else {
-				on.timer = &Timer{g: g, label: on.label}
-				ob.MaxDelay = time.Hour
-				ob.Timer = on.timer
-			}
+// addOperator creates (does not start) the next operator node: label "op<i>" with i its index in g.ops
+// (its identity for the whole life of the cluster generation), repo-level id `id`.
+func (g *generation) addOperator(id string) *opNode {
+	c := g.c
+	i := len(g.ops)
+	on := &opNode{label: fmt.Sprintf("op%d", i), id: id, clock: NewClock(), exit: make(chan error, 1)}
+	on.pos.Store(-1)
+	on.h = &handler{g: g, label: on.label, node: on}
+	on.sink = &sink{g: g, label: on.label}
+	ob := batching.EventBatcherParams{MaxSize: c.opt.OpBatch}
+	if c.opt.OpBatch > 1 {
+		if c.opt.OpDelay > 0 {
+			ob.MaxDelay = c.opt.OpDelay
+		} else {
+			on.timer = &Timer{g: g, label: on.label}
+			ob.MaxDelay = time.Hour
+			ob.Timer = on.timer
 		}
-		on.op = operator.NewOperator(operator.NewOperatorParams{
-			ID: on.id, Host: on.label, Job: &jobClient{g: g, from: on.label}, UserHandler: on.h, Clock: on.clock,
-			EventBatching: ob,
-			NeighborOperatorFactory: func(senderID string, node *jobpb.NodeIdentity) proto.Operator {
-				return &opClient{g: g, from: g.label(senderID), senderID: senderID, node: node}
-			},
-		})
-		g.mu.Lock()
-		g.opByID[on.id] = i
-		g.mu.Unlock()
-		g.ops = append(g.ops, on)
 	}
-	for i := 0; i < c.opt.Workers; i++ {
-		sn := &srNode{label: fmt.Sprintf("sr%d", i), clock: NewClock(), exit: make(chan error, 1)}
-		sn.reader = newReader(g, sn.label)
-		sb := batching.EventBatcherParams{MaxSize: c.opt.SrBatch, MaxDelay: c.opt.SrDelay}
-		rd := sn.reader
-		sn.sr = sourcerunner.New(sourcerunner.NewParams{
-			Host: sn.label, UserHandler: &handler{g: g, label: sn.label}, Job: &jobClient{g: g, from: sn.label}, Clock: sn.clock,
-			OperatorFactory: func(senderID string, node *jobpb.NodeIdentity) proto.Operator {
-				return &opClient{g: g, from: g.label(senderID), senderID: senderID, node: node}
-			},
-			SourceReaderFactory: func(*jobconfigpb.Source) connectors.SourceReader { return rd },
-			EventBatching:       sb,
-		})
-		sn.id = sn.sr.ID
-		g.mu.Lock()
-		g.srByID[sn.id] = i
-		g.mu.Unlock()
-		g.srs = append(g.srs, sn)
+	on.op = operator.NewOperator(operator.NewOperatorParams{
+		ID: on.id, Host: on.label, Job: &jobClient{g: g, from: on.label}, UserHandler: on.h, Clock: on.clock,
+		EventBatching: ob,
+		NeighborOperatorFactory: func(senderID string, node *jobpb.NodeIdentity) proto.Operator {
+			return &opClient{g: g, from: g.label(senderID), senderID: senderID, node: node}
+		},
+	})
+	g.mu.Lock()
+	g.opByID[on.id] = i
+	g.ops = append(g.ops, on)
+	g.mu.Unlock()
+	return on
+}
+
+// addRunner creates (does not start) the next source runner node, label "sr<i>". Every deployment of the
+// runner gets a fresh reader (like connectors.SourceConfig.NewSourceReader); srNode.cur() is the newest.
+func (g *generation) addRunner() *srNode {
+	c := g.c
+	i := len(g.srs)
+	sn := &srNode{label: fmt.Sprintf("sr%d", i), clock: NewClock(), exit: make(chan error, 1)}
+	sn.reader = newReader(g, sn.label)
+	sb := batching.EventBatcherParams{MaxSize: c.opt.SrBatch, MaxDelay: c.opt.SrDelay}
+	sn.sr = sourcerunner.New(sourcerunner.NewParams{
+		Host: sn.label, UserHandler: &handler{g: g, label: sn.label}, Job: &jobClient{g: g, from: sn.label}, Clock: sn.clock,
+		OperatorFactory: func(senderID string, node *jobpb.NodeIdentity) proto.Operator {
+			return &opClient{g: g, from: g.label(senderID), senderID: senderID, node: node}
+		},
+		SourceReaderFactory: func(*jobconfigpb.Source) connectors.SourceReader { return sn.readerForDeploy(g) },
+		EventBatching:       sb,
+	})
+	sn.id = sn.sr.ID
+	g.mu.Lock()
+	g.srByID[sn.id] = i
+	g.srs = append(g.srs, sn)
+	g.mu.Unlock()
+	return sn
+}
+
+func (g *generation) startOperator(n *opNode) {
+	go func() {
+		err := n.op.Start(context.Background())
+		g.c.observe(Obs{Kind: "exit", Gen: g.n, Node: n.label, Text: errText(err)})
+		g.exited(n.label)
+		n.exit <- err
+	}()
+}
+
+func (g *generation) startRunner(n *srNode) {
+	go func() {
+		err := n.sr.Start(context.Background())
+		g.c.observe(Obs{Kind: "exit", Gen: g.n, Node: n.label, Text: errText(err)})
+		g.exited(n.label)
+		n.exit <- err
+	}()
+}
+
+// exited: node `label` ("op<i>" / "sr<i>") returned from Start. With Options.WorkerProcesses a worker is one
+// process like workers.Worker (an errgroup over both halves): when one half ends by itself the other is
+// stopped gracefully (it deregisters), and the worker counts as gone for the next survivors restart.
+func (g *generation) exited(label string) {
+	g.mu.Lock()
+	if g.gone == nil {
+		g.gone = map[string]bool{}
 	}
-	for _, n := range g.ops {
-		n := n
-		go func() {
-			err := n.op.Start(context.Background())
-			c.observe(Obs{Kind: "exit", Gen: g.n, Node: n.label, Text: errText(err)})
-			n.exit <- err
-		}()
+	g.gone[label] = true
+	couple := g.c.opt.WorkerProcesses && !g.retired && !g.dead[label]
+	var op *opNode
+	var sr *srNode
+	if couple {
+		var i int
+		if _, err := fmt.Sscanf(label, "sr%d", &i); err == nil && i < len(g.ops) {
+			op = g.ops[i]
+		} else if _, err := fmt.Sscanf(label, "op%d", &i); err == nil && i < len(g.srs) {
+			sr = g.srs[i]
+		}
 	}
-	for _, n := range g.srs {
-		n := n
-		go func() {
-			err := n.sr.Start(context.Background())
-			c.observe(Obs{Kind: "exit", Gen: g.n, Node: n.label, Text: errText(err)})
-			n.exit <- err
-		}()
+	g.mu.Unlock()
+	if op != nil {
+		op.op.Stop()
 	}
-	// wait until running
+	if sr != nil {
+		sr.sr.Stop()
+	}
+}
+
+// awaitRunning waits until the job runs an assembly: the newest reader of every runner in `runners` has been
+// assigned its splits and the checkpoint ticker has been registered more than `tickers` times.
+func (g *generation) awaitRunning(runners []*srNode, tickers int) error {
+	c := g.c
 	deadline := time.Now().Add(c.opt.Timeout)
-	for _, n := range g.srs {
+	for _, n := range runners {
 		for waiting := true; waiting; {
 			select {
-			case <-n.reader.ready:
+			case <-n.cur().ready:
 				waiting = false
 			case <-time.After(2 * time.Millisecond):
 				g.mu.Lock()
@@ -614,18 +759,18 @@ func (c *Cluster) Boot() (restored uint64, err error) {
 				g.mu.Unlock()
 				if failed || time.Now().After(deadline) {
 					// (a failed operator deploy: jobs.Job logs "failed to start job" and waits for ever)
-					return restored, fmt.Errorf("%w: generation %d waiting for split assignment of %s (log: %s)", ErrBootTimeout, g.n, n.label, c.tail(12))
+					return fmt.Errorf("%w: generation %d waiting for split assignment of %s (log: %s)", ErrBootTimeout, g.n, n.label, c.tail(12))
 				}
 			}
 		}
 	}
-	if !g.jobClock.WaitLabel("checkpointing", time.Until(deadline)) {
-		return restored, fmt.Errorf("%w: generation %d waiting for the checkpoint ticker", ErrBootTimeout, g.n)
+	if !g.clockOfJob().WaitLabelCount("checkpointing", tickers+1, time.Until(deadline)) {
+		return fmt.Errorf("%w: generation %d waiting for the checkpoint ticker", ErrBootTimeout, g.n)
 	}
 	g.mu.Lock()
 	g.booting = false
 	g.mu.Unlock()
-	return restored, nil
+	return nil
 }
 
 func errText(err error) string {
@@ -705,7 +850,7 @@ func (c *Cluster) cur() *generation {
 // checkpoint unless one is pending and sends StartCheckpoint to every runner).
 // It returns when the job's tick function returns, i.e. after every
 // StartCheckpoint call has returned; use `go` when PSrStartCkpt is gated.
-func (c *Cluster) TickCheckpoint() { c.cur().jobClock.Tick("checkpointing") }
+func (c *Cluster) TickCheckpoint() { c.cur().clockOfJob().Tick("checkpointing") }
 
 // TickCheckpointTimeout is TickCheckpoint on its own goroutine; it reports
 // whether the tick function returned within d (a StartCheckpoint call to a
@@ -750,7 +895,7 @@ func (c *Cluster) PermitRead(sr string, split, n int) error {
 	g := c.cur()
 	for _, s := range g.srs {
 		if s.label == sr {
-			s.reader.permit(split, n)
+			s.cur().permit(split, n)
 			return nil
 		}
 	}
@@ -760,7 +905,7 @@ func (c *Cluster) PermitRead(sr string, split, n int) error {
 // SetAutoRead switches every reader of the running generation between manual and automatic reading.
 func (c *Cluster) SetAutoRead(on bool) {
 	for _, s := range c.cur().srs {
-		s.reader.setAuto(on)
+		s.cur().setAuto(on)
 	}
 }
 
@@ -768,8 +913,9 @@ func (c *Cluster) SetAutoRead(on bool) {
 // known to the readers of the running generation.
 func (c *Cluster) ReaderCursors() map[int]int {
 	out := map[int]int{}
-	for _, s := range c.cur().srs {
-		for k, v := range s.reader.cursors() {
+	_, srs := c.cur().live() // (after a survivors restart the generation also holds the runners that were replaced)
+	for _, s := range srs {
+		for k, v := range s.cur().cursors() {
 			out[k] = v
 		}
 	}
@@ -849,15 +995,17 @@ type Clock struct {
 	*clocks.FrozenClock
 	mu  sync.Mutex
 	fns map[string]func(*clocks.EveryContext)
+	cnt map[string]int // registrations per label
 }
 
 func NewClock() *Clock {
-	return &Clock{FrozenClock: clocks.NewFrozenClock(), fns: map[string]func(*clocks.EveryContext){}}
+	return &Clock{FrozenClock: clocks.NewFrozenClock(), fns: map[string]func(*clocks.EveryContext){}, cnt: map[string]int{}}
 }
 
 func (c *Clock) Every(d time.Duration, fn func(*clocks.EveryContext), label string) *clocks.Ticker {
 	c.mu.Lock()
 	c.fns[label] = fn
+	c.cnt[label]++
 	c.mu.Unlock()
 	return c.FrozenClock.Every(d, fn, label)
 }
@@ -889,6 +1037,25 @@ func (c *Clock) WaitLabel(label string, d time.Duration) bool {
 		}
 		time.Sleep(100 * time.Microsecond)
 	}
+}
+
+// LabelCount returns how often a ticker has been registered under label.
+func (c *Clock) LabelCount(label string) int {
+	c.mu.Lock()
+	defer c.mu.Unlock()
+	return c.cnt[label]
+}
+
+// WaitLabelCount waits until a ticker has been registered under label at least n times.
+func (c *Clock) WaitLabelCount(label string, n int, d time.Duration) bool {
+	deadline := time.Now().Add(d)
+	for c.LabelCount(label) < n {
+		if time.Now().After(deadline) {
+			return false
+		}
+		time.Sleep(100 * time.Microsecond)
+	}
+	return true
 }
 
 var _ clocks.Clock = (*Clock)(nil)
